@@ -594,3 +594,7 @@ func init() {
 func init() {
 	ctl("monitor handler trusts the length of the parameter list", "P-IDX-RPC", "(*server.OvsdbServer).Monitor|request parameter args[2]", "server", "OvsdbServer", "Monitor", kExpr, "len(args) < 3", 0, to("len(args) < 2"))
 }
+
+func init() {
+	ctl("wait without a limit polls for ever", "P-POLL", "Wait|polling loop", "database/transaction", "Transaction", "Wait", kStmt, "if timeout == nil {", 0, to("if timeout == nil {\ntime.Sleep(200 * time.Millisecond)\ncontinue\n}"))
+}
